@@ -94,6 +94,21 @@ def gen_knap(rng):
         # capacity 0.01 or 0.1, items a hair (below 1e-9) over half of it: two of them do not fit together
         cap = rng.choice([10 ** 8, 10 ** 9])
         return {"values": [rng.randint(1, 9) for _ in range(n)], "weights": [cap // 2 + rng.randint(0, 4) for _ in range(n)], "capacity": cap, "scale": 10 ** 10}
+    if k >= 0.16 and k < 0.22:
+        # two or three identical items next to each other, all needed in the optimum, and an earlier single item that beats one of them
+        # but not the pair
+        w, v = rng.randint(2, 5), rng.randint(3, 7)
+        t = rng.randint(2, 3)
+        comp = [rng.randint(v + 1, 2 * v - 1), rng.randint(w + 1, 2 * w)]
+        values = [comp[0]] + [v] * t
+        weights = [comp[1]] + [w] * t
+        if rng.random() < 0.5:
+            values = [rng.randint(0, 4)] + values
+            weights = [rng.randint(1, 9)] + weights
+        if rng.random() < 0.3:
+            values.append(rng.randint(0, 5))
+            weights.append(rng.randint(1, 9))
+        return {"values": values, "weights": weights, "capacity": t * w + rng.choice([0, 0, 1]), "scale": 1}
     if k < 0.16 and k >= 0.1:
         # four-decimal weights, one valuable item a hair (under 0.001) over the capacity: the scaled DP takes it, the exact re-check
         # rejects that and the greedy fallback has to produce the answer
